@@ -53,14 +53,14 @@ def gen_tree(rng, want_ignore, want_links, want_shm):
     entries = []
     dirs = [""]
     files = []
-    maxdepth = rng.below(7)
+    maxdepth = rng.choice([0, 1, 2, 3, 3, 4, 4, 5, 6, 6])
 
     def fill(d, depth):
-        n = rng.below(5) if depth else 1 + rng.below(4)
+        n = 1 + rng.below(4) if depth else 2 + rng.below(4)
         used = set()
         for _ in range(n):
             k = rng.below(10)
-            if k < 3 and depth < maxdepth:
+            if (k < 4 or (depth < maxdepth - 2 and not used)) and depth < maxdepth and len(dirs) < 14:
                 name = rng.choice(DIR_NAMES)
                 if name in used:
                     continue
@@ -314,11 +314,19 @@ def read_ignore(d):
 
 def ign_match(pats, d, path, isdir, anywhere):
     """`anywhere`: what the crate does for a path that is not below the directory of the ignore file
-    (the full path is matched, patterns without a slash are `**/pat`); False = documented scope."""
-    under = path.startswith(d.rstrip("/") + "/")
+    (Gitignore::strip removes the root as a BYTE prefix — not at a component boundary — and otherwise
+    matches the full path; patterns without a slash are `**/pat`); False = documented scope only."""
+    root = d.rstrip("/")
+    under = path.startswith(root + "/")
     if not under and not anywhere:
         return False
-    name = os.path.basename(path)
+    if path.startswith(root):
+        cand = path[len(root):]
+        if cand.startswith("/"):
+            cand = cand[1:]
+    else:
+        cand = path
+    name = cand.rsplit("/", 1)[-1]
     for p in pats:
         if p.endswith("/"):
             if isdir and name == p[:-1]:
@@ -355,8 +363,7 @@ def gen_options(rng, top, dirs_abs, files_abs, have_links, have_ignore, k3_dir=N
     o["one_fs"] = rng.chance(1, 5)
     o["min"] = rng.choice([1, 1, 0, 2, 3])
     o["max"] = rng.choice([None, None, 2, 3, 5])
-    k = rng.below(10)
-    rel = lambda p, cwd: os.path.relpath(p, cwd)
+    k = rng.below(13)
     o["_patkind"] = "none"
     if k == 0:
         o["names"] = [rng.choice(["*.log", "a*", "?", "[ab]*", "ż", "*-1", "*.1", "b*"])]
@@ -829,7 +836,7 @@ def evaluate(ctx, cases, model, do_cli, fclones):
                     p.stdout = '{"groups": []}'
                 elif p.returncode != 0:
                     if "Invalid pattern" in p.stderr or "could not be accessed" in p.stderr:
-                        ctx.bump("cli_rejected", p.stderr.strip()[:30])
+                        ctx.bump("cli_rejected", p.stderr.strip().split("fclones: ")[-1][:40])
                         continue
                     ctx.violation({"kind": "cli_failed"}, "fclones exited %d: %s" % (p.returncode, p.stderr[-300:]), replay,
                                   found_input=False)
@@ -905,7 +912,7 @@ def run(ctx):
             case = make_case(tree, o, rebase(cs["cwd"]), [rebase(r) for r in cs["roots"]])
             evaluate(ctx, [case], model, lambda i: True, fclones)
             return
-        ntrees = ctx.pick(110, 1500)
+        ntrees = ctx.pick(160, 1500)
         per_tree = ctx.pick(6, 10)
         cli_every = ctx.pick(5, 4)
         batch = []
